@@ -9,7 +9,7 @@ import (
 var Assumptions = []string{
 	"one real sarama.Broker (NewBroker+Open) on a net.Pipe injected through Config.Net.Proxy.Dialer; the server end is a scripted in-bubble server that takes requests off the wire as they arrive (socket-buffer semantics) and whose every action on the oldest unanswered request is a controller choice",
 	"a request counts as 'on the wire awaiting a response' at a quiescent point when the server has fully received it, has not acted on it in any way, and its caller has not returned yet; the count is compared with Net.MaxOpenRequests at every decision point",
-	"connection fault = a faulty server action (out-of-order/unknown correlation id, truncated frame + close, length field > MaxResponseSize / <= 4 / negative, abrupt close) or a full Net.ReadTimeout (1 s of fake time, explicit tick actor) of silence while a call is outstanding; Broker.Close racing with calls is NOT a fault (calls outstanding at Close may still complete normally)",
+	"connection fault = a faulty server action (out-of-order/unknown correlation id, truncated frame + close, length field > MaxResponseSize / <= 4 / negative, abrupt close) or a full Net.ReadTimeout (1 s of fake time, explicit tick actor) of silence while a call is outstanding (silence = the answer is postponed, or the server stalls for good: variant `stall`); Broker.Close racing with calls is NOT a fault (calls outstanding at Close may still complete normally)",
 	"one server fault per execution (after it only faithful answers are offered; they are never read), any number of read timeouts; all executions with at most B deviations from the default policy (pol=calls: start every call before answering; pol=answers: answer each request before the next call)",
 	"interleavings at actor granularity: one call enters Broker.send per decision, so two callers never race for Broker.lock inside one step (lock waiters queue FIFO on the channel-based sync shim); data races are outside this check",
 	"request kinds: MetadataRequest v0 and OffsetRequest v0 (response header version 0); each call names a unique topic so the server identifies the call from the request body, independently of the correlation id; each response body carries a unique nonce",
